@@ -691,6 +691,13 @@ void op_reduce(const Step& s) {
 		if (got.rules.size() > ma.rules.size()) violation("C05.reduce-size", "et_reduce", "Reduce returned more rules than the input has");
 		std::set<long> sa = ma.states();
 		for (long q : got.states()) if (!sa.count(q)) violation("C05.reduce-image", "et_reduce", "result state " + std::to_string(q) + " is not (the representative of) a state of the input");
+		{
+			// every state of the result is the image of a state of A under ONE map that sends simulation-equivalent
+			// states to one representative: two result states of the same equivalence class cannot both be images
+			mdl::Rel R = mdl::down_sim(ma); std::set<long> gs = got.states();
+			for (long q : gs) for (long p : gs) if (q < p && sa.count(q) && sa.count(p) && R.count(std::make_pair(q, p)) && R.count(std::make_pair(p, q)))
+				violation("C05.reduce-image", "et_reduce", "result states " + std::to_string(q) + " and " + std::to_string(p) + " are simulation-equivalent in the input: they cannot both be images under the quotient map\n  input : " + mdl::to_lit(ma) + "\n  result: " + mdl::to_lit(got));
+		}
 		if (ma.states().size() <= 8) lang_oracle("C05.reduce-language", "et_reduce", got, ma, "Reduce");
 		else {
 			// structural: the result is the quotient by downward-simulation equivalence, pruned
@@ -720,7 +727,7 @@ mdl::Alphabet dict_content(const ET& a) {
 void op_complement(const Step& s) {
 	ETH& a = H(s, 0); TA ma = a.model; int al = a.alpha;
 	mdl::Alphabet sigma = dict_content(*a.aut);
-	if (sigma != alpha_model(al)) harness_error("alphabet model out of sync with the dictionary");
+	// sigma is the dictionary content at the call: other modules (the command-line steps, text loads) register symbols in the default alphabet too
 	api_begin();
 	api_site("et_complement", BUDGET_INCONCLUSIVE, 3000000);
 	ET r = a.aut->Complement();
